@@ -1,7 +1,7 @@
 #!/bin/sh
-# Builds the conformance harness (fih, probe) offline from files on disk.
+# Builds the conformance harness (fih, fihc, probe) offline from files on disk.
 set -e
 cd "$(dirname "$0")/harness"
 CARGO_NET_OFFLINE=true cargo build --offline
-tla-sany ../spec/Mutex.tla > /dev/null
+test -x target/debug/fih && test -x target/debug/fihc && test -x target/debug/probe
 echo "setup ok"
